@@ -7,7 +7,7 @@ ABI_PRESERVED = {"rdi", "rsi", "rdx", "rcx", "r8", "r9", "rbx", "rbp", "r12", "r
 def run(res, tier, seed, replay):
     res.corr_diffs, res.unknown = [], []
     res.cov["rule"] = ("real (x86-64 CPU): an assembly caller loads a pattern into the 6 integer argument registers, the 6 callee-saved registers, r10/r11, the vector registers 0-7 at full width (256-bit ymm when the CPU has AVX, else 128-bit xmm) and three stack slots and calls a faked assembly target; the assembly fake records the whole register file, "
-                       "RSP, the return address and the stack arguments at its entry, the caller records RAX/RDX, callee-saved registers and RSP after the return; near fake (short trampoline) and a fake > 2 GiB away (long trampoline); Rust-level fakes with 14 mixed "
+                       "RSP, the return address and the stack arguments at its entry, the caller records RAX/RDX, callee-saved registers and RSP after the return; near fake (short trampoline) a fake > 2 GiB away (long trampoline), and a fake that starts at an ODD address right after another routine's `ret` (packed code); Rust-level fakes with 14 mixed "
                        "integer/float/stack arguments, a two-register return and a 136-byte by-memory return. sim: the bytes the implementation writes for random placements executed with the extracted x86 semantics: registers changed must avoid the ABI-preserved set "
                        "and memory must not be written; distinct = distinct (mode, pattern class) / (entry form, trampoline form)")
     res.cov["trusted_base"] = vlib.TRUSTED_COMMON + ["L0 x86-64 fragment (validated here against the real CPU by the assembly probe)", "harness/real abi.rs global_asm caller/fake pair"]
@@ -18,7 +18,7 @@ def run(res, tier, seed, replay):
     exe = reallib.build(res)
     if not exe: return
     n = 64 if tier == "quick" else 4096
-    lines = [f"near near {n} {seed + 1}", f"far far {n} {seed + 2}", f"rust rust {n} {seed + 3}"]
+    lines = [f"near near {n} {seed + 1}", f"far far {n} {seed + 2}", f"odd odd {n} {seed + 4}", f"rust rust {n} {seed + 3}"]
     p = subprocess.run([exe, "abi"], input="\n".join(lines) + "\n", capture_output=True, text=True, timeout=600)
     seen = set()
     for l in p.stdout.split("\n"):
@@ -34,7 +34,7 @@ def run(res, tier, seed, replay):
             res.extra.setdefault("scratch_registers_changed", {})[t[0]] = kv.get("scratch_changed")
         elif t[1] == "CHILD" and t[2] != "exit:0":
             res.violation(f"ABI probe died with {t[2]}", dict(mode=t[0]), l)
-    if seen != {"near", "far", "rust"}: res.broke("ABI probe did not complete", p.stdout[-2000:] + p.stderr[-1000:])
+    if seen != {"near", "far", "odd", "rust"}: res.broke("ABI probe did not complete", p.stdout[-2000:] + p.stderr[-1000:])
     res.cov["evaluations"] += 3 * n; res.cov["traces_validated_against_impl"] += 3 * n; res.cov["distinct_nontrivial"] += 3 * 4
     res.cov["samples"] += lines
     # sim: registers written by the redirection, for random placements and both trampoline forms
